@@ -112,6 +112,12 @@ type vfLeaseStore struct {
 	// every EVAL in order: <C campaign script | X resign script>:<ARGV[1]>:<integer reply> (C15loop)
 	evalLogOn bool
 	evalLog   []string
+	// resharding in the middle of a two-request call (VerifArmMidCall)
+	midKey     string
+	midNode    int
+	midMigrate bool
+	midArmed   bool
+	midFired   bool
 }
 
 func (st *vfLeaseStore) VerifEvalLog(on bool) {
@@ -404,6 +410,18 @@ func (st *vfLeaseStore) exec(args []string) vfReply {
 			fmt.Fprintf(&sb, "*%d\r\n", len(keys))
 			for _, k := range keys {
 				fmt.Fprintf(&sb, "$%d\r\n%s\r\n", len(k), k)
+			}
+			if st.midArmed {
+				st.midArmed, st.midFired = false, true
+				if st.midMigrate {
+					if st.beginMigrateLocked(st.midKey, st.midNode) {
+						if _, live := st.live(st.midKey); live {
+							st.atTarget[st.midKey] = true
+						}
+					}
+				} else {
+					st.moveSlotLocked(st.midKey, st.midNode)
+				}
 			}
 			return vfReply{kind: 'R', s: sb.String()}
 		}
@@ -1223,6 +1241,10 @@ func (st *vfLeaseStore) ClusterAddrs() []string { return append([]string(nil), s
 func (st *vfLeaseStore) VerifMoveSlot(key string, node int) int {
 	st.mu.Lock()
 	defer st.mu.Unlock()
+	return st.moveSlotLocked(key, node)
+}
+
+func (st *vfLeaseStore) moveSlotLocked(key string, node int) int {
 	sl := vfdoubles.ClusterSlot(key)
 	st.slotOwner[sl] = int16(node)
 	// a migration of that slot is over (SETSLOT NODE everywhere): all its keys are at the owner
@@ -1240,12 +1262,33 @@ func (st *vfLeaseStore) VerifMoveSlot(key string, node int) int {
 func (st *vfLeaseStore) VerifBeginMigrate(key string, node int) bool {
 	st.mu.Lock()
 	defer st.mu.Unlock()
+	return st.beginMigrateLocked(key, node)
+}
+
+func (st *vfLeaseStore) beginMigrateLocked(key string, node int) bool {
 	sl := vfdoubles.ClusterSlot(key)
 	if int(st.slotOwner[sl]) == node || st.migTo[sl] != 0 || node < 0 || node >= len(st.nodeAddrs) {
 		return false
 	}
 	st.migTo[sl] = int16(node + 1)
 	return true
+}
+
+// VerifArmMidCall: right after the next COMMAND GETKEYS is answered (the first of the two requests of Leader()
+// through the cluster client) the slot of key moves to node (migrate = false) or starts MIGRATING to it with the
+// key already gone over (migrate = true): the resharding happens IN THE MIDDLE of the call.
+func (st *vfLeaseStore) VerifArmMidCall(key string, node int, migrate bool) {
+	st.mu.Lock()
+	st.midKey, st.midNode, st.midMigrate, st.midArmed = key, node, migrate, true
+	st.mu.Unlock()
+}
+
+func (st *vfLeaseStore) VerifMidCallFired() bool {
+	st.mu.Lock()
+	defer st.mu.Unlock()
+	f := st.midFired
+	st.midFired, st.midArmed = false, false
+	return f
 }
 
 // VerifMigrateKey: MIGRATE of one key of a migrating slot (it is at the importing node from now on)
